@@ -260,15 +260,27 @@ def custom_type(ctx):
         from gym_gridverse.geometry import Orientation, Position
         from gym_gridverse.grid import Grid
         from gym_gridverse.state import State
+        SameName = type('Wall', (Wall,), {})      # a second registered type that happens to be CALLED Wall: still a type of its own
+        space2 = StateSpace(Shape(2, 2), [floor, Wall, SameName], [Color.NONE])
         for kind in rsuite.KINDS:
             rep = rsuite.make_state_representation(kind, space)
             a = State(Grid([[floor(), Wall()], [floor(), floor()]]), Agent(Position(1, 0), Orientation.F))
             b = State(Grid([[floor(), VerifLava()], [floor(), floor()]]), Agent(Position(1, 0), Orientation.F))
             if rep_equal(rep.convert(a), rep.convert(b)):
                 ctx.violation(f'`{kind}`: states differing in a Wall vs a registered subclass of Wall have equal representations', {})
+            rep2 = rsuite.make_state_representation(kind, space2)
+            c = State(Grid([[floor(), SameName()], [floor(), floor()]]), Agent(Position(1, 0), Orientation.F))
+            ctx.case(('same-name-type', kind), True, None)
+            if a == c or rep_equal(rep2.convert(a), rep2.convert(c)):
+                ctx.violation(f'`{kind}`: states differing in a Wall vs another registered type that is also called `Wall` are equal / have equal representations', {})
+            if kind == 'compact':
+                vals = sorted({int(v) for st in (a, c) for v in rep2.convert(st)['grid'].reshape(-1, 3)[:, 0]})
+                if vals != list(range(len(vals))) and max(vals) > 3:
+                    ctx.violation(f'`compact`: type values {vals} of a space with two types called `Wall` are not consecutive', {})
     finally:
-        while VerifLava in reg.data:
-            reg.data.remove(VerifLava)
+        for cls in [c for c in list(reg.data) if c.__name__ in ('VerifLava',) or (c.__name__ == 'Wall' and c is not Wall)]:
+            while cls in reg.data:
+                reg.data.remove(cls)
 
 
 if __name__ == '__main__':
